@@ -342,8 +342,14 @@ def check_e2e(rec, inp):
         shift = float(mu_of(c, zb) - mu_of(c, za))
         va = fscalar(A.likelihood(A.param.kwargs2args(kwargs_cosmo=kc, kwargs_source=dict(mu_sne=m, sigma_sne=0))))
         vb = fscalar(B.likelihood(B.param.kwargs2args(kwargs_cosmo=kc, kwargs_source=dict(mu_sne=m + shift, sigma_sne=0))))
-        rec.check(rec.close(va, vb, rtol=1e-9, atol=1e-7), "C11:e2e:anchor_shift",
-                  "joint lens+SNe likelihood changes when the anchor is moved with the modulus difference", inp, [va, vb], "equal")
+        # with interpolate_cosmo the distance table ends at max(z_source, z_SNe, anchor): two anchors above the data give two
+        # different tables (1e-6 relative interpolation differences), so the relational check needs a common table
+        same_table = (not inp["interpolate_cosmo"]) or max(za, zb) <= max(zs, float(np.max(zc)))
+        if same_table:
+            rec.check(rec.close(va, vb, rtol=1e-9, atol=1e-7), "C11:e2e:anchor_shift",
+                      "joint lens+SNe likelihood changes when the anchor is moved with the modulus difference", inp, [va, vb], "equal")
+        else:
+            rec.tally("e2e:anchor_above_data(value check only)")
         d = 5 * np.log10((1 + zh) * (1 + zc) * np.asarray(c.angular_diameter_distance(zc).value, dtype=float)) - float(mu_of(c, za))
         ref = float(mvn.logpdf(mag, d + m, cov)) + mag_loglike_ref(kw, m + float(mu_of(c, zs) - mu_of(c, za)))
         rec.check(rec.close(va, ref, rtol=1e-9, atol=1e-7), "C11:e2e:value",
@@ -372,7 +378,7 @@ def run(rec, args):
         return dict(cosmo=gen_cosmo(rng, allow_interp), h0_factor=float(rng.choice([rng.uniform(0.3, 3.), 0.5, 10.])), za=za, zb=zb,
                     m=float(rng.uniform(15, 26)), data_seed=int(rng.integers(0, 2 ** 31)))
     # --- SNe -------------------------------------------------------------------------------------------
-    for r in range(30 if quick else 220):
+    for r in range(120 if quick else 800):
         inp = dict(check="sne", sample="CUSTOM", n=int(rng.choice([1, 2, 3, 5, 8, 12, 30])), **common_fields())
         inp.update(sigma=[None, 0.0, float(rng.uniform(0.01, 0.5)), float(rng.uniform(0.01, 0.5))][int(rng.integers(0, 4))],
                    zhel_differs=bool(rng.uniform() < 0.7), diag_cov=bool(rng.uniform() < 0.25),
@@ -382,13 +388,13 @@ def run(rec, args):
         rec.case(inp, kind="sne:CUSTOM/%s/%s" % (inp["cosmo"]["kind"], "sigma" if inp["sigma"] else "nosigma"))
         rec.guard(check_sne, rec, inp)
     for name in ["Pantheon_binned", "Roman_forecast"]:
-        for r in range(6 if quick else 40):
+        for r in range(20 if quick else 100):
             inp = dict(check="sne", sample=name, **common_fields())
             inp.update(sigma=[None, 0.0, float(rng.uniform(0.01, 0.3))][int(rng.integers(0, 3))])
             rec.case(inp, kind="sne:%s/%s" % (name, inp["cosmo"]["kind"]))
             rec.guard(check_sne, rec, inp)
     # --- lens side ----------------------------------------------------------------------------------------
-    for r in range(30 if quick else 200):
+    for r in range(120 if quick else 800):
         t = str(rng.choice(MAG_TYPES + ["DdtGaussian", "IFUKinCov"], p=[.35, .25, .25, .1, .05]))
         zl = float(rng.uniform(0.1, 1.0))
         inp = dict(check="lens", type=t, z_lens=zl, z_source=float(zl + rng.uniform(0.2, 1.8)), **common_fields())
@@ -402,17 +408,12 @@ def run(rec, args):
                 rec.case(inp, kind="source:%s/%s" % (samp, dist))
                 rec.guard(check_source, rec, inp)
     # --- end to end ------------------------------------------------------------------------------------------------
-    for r in range(6 if quick else 40):
+    for r in range(24 if quick else 150):
         zl = float(rng.uniform(0.1, 0.8))
         f = common_fields()
         inp = dict(check="e2e", z_lens=zl, z_source=float(zl + rng.uniform(0.2, 1.2)), n=int(rng.choice([1, 4, 9])),
                    h0=float(rng.uniform(50, 90)), om=float(rng.uniform(0.15, 0.45)), interpolate_cosmo=bool(rng.integers(0, 2)),
                    za=f["za"], zb=f["zb"], m=f["m"], data_seed=f["data_seed"], h0_factor=f["h0_factor"], M=float(rng.uniform(18, 20)))
-        if args.focus != "anchor_above_zmax":
-            # CosmoLikelihood(interpolate_cosmo=True) tabulates distances up to max(z_source, z_SNe) only; an anchor above
-            # that raises inside the interpolation (reported separately, not part of the default run)
-            zmax = max(inp["z_source"], float(np.max(custom_sample(inp)[3])))
-            inp["za"], inp["zb"] = [float(v) for v in rng.uniform(0.02, 0.95 * zmax, 2)]
         rec.case(inp, kind="e2e:%s" % ("interp" if inp["interpolate_cosmo"] else "astropy"))
         rec.guard(check_e2e, rec, inp)
 
